@@ -246,6 +246,69 @@ def _hash_brace_in_string(css):
     return any(m.group(1) and "#{" in m.group(1) for m in _STR.finditer(css))
 
 
+def _read_string_tokens(css, style):
+    """The quoted tokens of `x{v:TOKEN}…` / `x {\n  v: TOKEN;\n}\n…` in order (string-aware)."""
+    toks, i, n = [], 0, len(css)
+    head = "x{v:" if style == "compressed" else "x {\n  v: "
+    while True:
+        j = css.find(head, i)
+        if j < 0:
+            return toks
+        k = j + len(head)
+        if k >= n or css[k] not in "\"'":
+            return None
+        q, m = css[k], k + 1
+        while m < n and css[m] != q:
+            m += 2 if css[m] == "\\" else 1
+        if m >= n:
+            return None
+        toks.append(css[k:m + 1])
+        i = m + 1
+
+
+def string_probes(ck, pool, n):
+    """DIRECT oracle for C05_quoted_roundtrip / C05_quoted_wellformed on grass's own output: generated strings are
+    written as `x{v:"…"}` literals, the token grass prints is handed to the Lean driver, which must judge it
+    `quotedOk` and unescape it back to the intended string — in both styles."""
+    rng = ck.rng
+    strs = ["", "\n", "\nf", "\nF", "\x01a", "\x1fe", "\n ", "\n\t", "\ng", "a\nb\nc", "\"'", "'\"\\", "\\", "\\\n", "\x7f", "é\n9",
+            "\x08B", "\rA\x0cD", "#{", "\x01", "x\x0b"]
+    while len(strs) < n:
+        strs.append(cc.gen_quoted(rng))
+    fails = []
+    B = 100
+    jobs, spans = [], []
+    for off in range(0, len(strs), B):
+        chunk = strs[off:off + B]
+        src = "\n".join("x{v:" + cc.scss_string_literal(t, rng) + "}" for t in chunk) + "\n"
+        for st in STYLES:
+            jobs.append(compile_job(src, style=st, syntax="scss", charset=False))
+            spans.append((off, len(chunk), st, src))
+    ans = cc.run_jobs(pool, jobs)
+    reqs, owner = [], []
+    for (off, k, st, src), a in zip(spans, ans):
+        toks = _read_string_tokens(a.get("css") or "", st) if a.get("status") == "ok" else None
+        if toks is None or len(toks) != k:
+            fails.append({"key": f"strings:{off}", "src": src, "what": "quoted-string tokens of the output cannot be read back",
+                          "cfg": st or "expanded", "status": a.get("status"), "output": (a.get("css") or "")[:2000]})
+            continue
+        for i, t in enumerate(toks):
+            reqs.append("ser quotedok " + hexs(t))
+            owner.append((strs[off + i], t, st))
+    outs = driver(reqs) if reqs else []
+    for (want, tok, st), o in zip(owner, outs):
+        ck.count(("string-probe", want, st), len(want) > 0)
+        parts = o.split(" ")
+        got = unhex(parts[2]) if len(parts) == 3 and parts[2] != "_" else None
+        ck.hist("string-probe:" + ("control" if any(ord(c) < 32 and c != "\t" for c in want) else "plain"))
+        if parts[:2] != ["ok", "1"] or got != want:
+            lit = "x{v:" + cc.scss_string_literal(want, rng) + "}"
+            fails.append({"key": "string:" + hexs(want), "src": lit + "\n", "what": "a quoted string is not printed as a well-formed token that reads back to the same string",
+                          "cfg": st or "expanded", "intended_hex": hexs(want), "printed_token": tok, "lean_quotedOk": parts[1] if len(parts) > 1 else o,
+                          "lean_unescape_hex": parts[2] if len(parts) > 2 else None})
+    return fails
+
+
 def corpus_progs(ck, tier):
     cs = cc.corpus_cases()
     excluded = [c for c in cs if c["name"] in NOT_CSS_REPRESENTABLE]
@@ -340,7 +403,8 @@ def run(tier, seed):
         "at-rule) printed as SCSS and compiled in {expanded,compressed} x {charset on,off}; grass text compared byte for "
         "byte with the model. A case is distinct by (tree, style, charset) and non-trivial when the tree reaches a "
         "branch beyond 'one visible rule with declarations' (see histogram tree:*). "
-        "DIRECT: the same sources + generated SassScript programs + golden-corpus test inputs (no random()/unique-id(); "
+        "DIRECT: generated strings written as literals, the printed token judged by the Lean driver (quotedOk, unescape = "
+        "intended string) in both styles; the same sources + generated SassScript programs + golden-corpus test inputs (no random()/unique-id(); "
         f"{len(NOT_CSS_REPRESENTABLE)} named cases whose input injects non-CSS text are excluded, see "
         "corpus_excluded_not_css_representable), each in 4 configurations, then each of the 2 charset-on outputs "
         "recompiled as css and scss in both styles (8 recompilations) and compared as canonical rule lists "
@@ -361,6 +425,7 @@ def run(tier, seed):
     tie(ck, pool, tcases)
     log(f"[C05] tie: {len(tcases)} trees, disagreements={ck.cov['model_disagreements']}")
     fails = []
+    fails += string_probes(ck, pool, 2000 if tier == "quick" else 30000)
     # direct oracle: generated trees (as programs), generated programs, corpus
     n_clean = len(CORPUS) + int(0.4 * n_tie)
     tprogs = [{"key": "tree:" + str(i), "src": c["src"], "syntax": "scss"} for i, c in enumerate(tcases[:n_clean])]
@@ -374,8 +439,11 @@ def run(tier, seed):
     log(f"[C05] gen-prog direct done at {round(__import__('time').time() - ck.t0)}s")
     fails += direct(ck, pool, corpus_progs(ck, tier), "corpus", gate=True)
     log(f"[C05] direct: failures={len(fails)}")
-    if (not ck.proof["ok"] or ck.cov["model_disagreements"]) and not fails and tier == "quick":
-        log("[C05] proof or correspondence broken: enlarging the search")
+    if (not ck.proof["ok"] or ck.cov["model_disagreements"] or getattr(ck, "changed", None)) and \
+            not [f for f in fails if not f.get("tags")] and tier == "quick":
+        log("[C05] proof or correspondence broken, or modelled sources changed: enlarging the search")
+        if getattr(ck, "changed", None):
+            tie(ck, pool, gen_tie_cases(ck, 3000))
         extra = [{"key": "prog+:" + str(i), "src": cc.gen_program(ck.rng), "syntax": "scss"} for i in range(3000)]
         fails += direct(ck, pool, extra, "gen-prog", gate=True)
         more = gen_tie_cases(ck, 3000)[:1200]
